@@ -40,6 +40,9 @@ def instances(tier):
     for L in ((1, 2) if quick else (1, 2, 3)):
         out.append(dict(id="t_eval%d-Euler-vec2" % L, method="Euler", shape=[2], mode="t_eval", L=L, N=2, budget=b))
     out.append(dict(id="t_eval2-Euler-mat22", method="Euler", shape=[2, 2], mode="t_eval", L=2, N=2, budget=b))
+    # t_eval together with dense_output=True: the columns are still the states the stepper reaches at the requested times
+    out.append(dict(id="t_eval1-Euler-vec2-dense", method="Euler", shape=[2], mode="t_eval", L=1, N=2, dense=True, budget=b))
+    out.append(dict(id="t_eval2-RK4Solver-vec2-dense", method="RK4Solver", shape=[2], mode="t_eval", L=2, N=1, dense=True, budget=b))
     return out
 
 
@@ -77,6 +80,10 @@ def scenario(c, inst):
     nargs = inst.get("nargs", 2)
     K_DEF, M_DEF = object(), object()
     extra = [c.real("arg_k"), c.real("arg_m")][:nargs - 2]
+    _all_args = [a_arg, b_arg] + extra
+    for i_ in range(len(_all_args)):
+        for j_ in range(i_ + 1, len(_all_args)):
+            c.assume(_all_args[i_] != _all_args[j_])        # distinct values: a permutation of the arguments is then visible in the float replay too
     want_k = extra[0] if nargs >= 3 else K_DEF
     want_m = extra[1] if nargs >= 4 else M_DEF
 
@@ -109,7 +116,7 @@ def scenario(c, inst):
             for j in range(i + 1, len(pts)):
                 g = absval(c, pts[i] - pts[j])
                 c.assume(c.any([c.eq(g, 0), c.le(1.0 / 64, g)]) if c.symbolic else True)     # no hops at the rounding-tolerance scale
-    st, res = run(de.solve_ivp, fun, (t0, tf), y0, method=method, t_eval=t_eval, args=tuple([a_arg, b_arg] + extra), dense_output=False, **opts)
+    st, res = run(de.solve_ivp, fun, (t0, tf), y0, method=method, t_eval=t_eval, args=tuple([a_arg, b_arg] + extra), dense_output=bool(inst.get("dense", False)), **opts)
     if st != "ok":
         cause = getattr(res, "__cause__", None)
         if isinstance(cause, StepCap):
